@@ -19,6 +19,7 @@ The implementation is compared with BOTH variants of the model:
 """
 import copy
 import math
+import zlib
 import os
 import random
 import sys
@@ -621,6 +622,13 @@ def gen_scenario(r):
                 f = r.choice([None, 1.0, 0.9, 1.5, 0.5]) if mode == "explicit" else r.choice([0.01, 50.0, None])
                 tot.append(None if f is None else (base * f if base else scale * f))
             con["total"] = tot
+        if len(ts) >= 2 and zlib.crc32(repr((ts, con["bf"], con["total"])).encode()) % 3 == 0:
+            # the constraint years need not be listed in ascending order; totals and budget factors belong to the year at the same position
+            con["t"] = ts[::-1]
+            if isinstance(con["bf"], list):
+                con["bf"] = con["bf"][::-1]
+            if con["total"] is not None:
+                con["total"] = con["total"][::-1]
     return {"progs": progs, "years": years, "alloc": alloc, "adjs": adjs, "con": con, "scale": scale}
 
 
